@@ -98,8 +98,27 @@ pub fn cps(s: &str) -> Vec<u32> {
 }
 
 /// the library on (list, settings) through a fresh builder with the canonical setter order
+/// It runs on a FRESH thread so that no per-thread state left behind by earlier builds of the
+/// code under test can leak into the reference result.
 pub fn lib_out(list: &[String], cfg: &Cfg) -> Result<String, String> {
-    crate::model::plain_build(list, cfg)
+    let (l, c) = (list.to_vec(), cfg.clone());
+    std::thread::spawn(move || crate::model::plain_build(&l, &c))
+        .join()
+        .unwrap_or_else(|_| Err("reference thread panicked".to_string()))
+}
+
+/// the library in a fresh PROCESS (fresh hash seeds, no process-wide state)
+pub fn lib_out_process(list: &[String], cfg: &Cfg, self_exe: &str, tmp: &str, tag: usize) -> Result<String, String> {
+    let path = format!("{}/ref_plan_{}.json", tmp, tag);
+    std::fs::write(&path, json!({"list": list, "cfg": cfg.to_json()}).to_string()).map_err(|e| e.to_string())?;
+    let out = std::process::Command::new(self_exe).args(["build-one", &path]).output().map_err(|e| e.to_string())?;
+    let _ = std::fs::remove_file(&path);
+    let s = String::from_utf8_lossy(&out.stdout).to_string();
+    if let Some(m) = s.strip_prefix("PANIC ") {
+        Err(m.to_string())
+    } else {
+        Ok(s)
+    }
 }
 
 #[derive(Clone, Debug)]
@@ -183,8 +202,80 @@ pub fn random_history(rng: &mut StdRng, max_ops: usize, allow_errors: bool) -> (
     (sets, ops)
 }
 
+/// Structured histories: the call patterns in which hidden state or call-order dependence would show -
+/// repeated builds after a setting that makes build() normalise the list in place, thresholds set before /
+/// after / between builds, clones taken before and after builds.
+pub fn structured_history(rng: &mut StdRng) -> (Vec<Vec<String>>, Vec<Op>) {
+    let mixed = ["Bxx", "ayy", "Abc", "aBc", "abC", "ZZ", "zy", "Ka", "kA", "b", "B", "\u{130}x", "i\u{307}x", "\u{212A}", "k"];
+    let repeats = ["aaa", "aaaa", "abab", "ababab", "aaaab", "xyxyxy", "1111", "11a11a", "aabb", "abcabc", "zzzzz"];
+    let family = rng.gen_range(0..4);
+    let pool: &[&str] = if family == 0 || (family == 3 && rng.gen_bool(0.5)) { &mixed } else { &repeats };
+    let mut list: Vec<String> = vec![];
+    for _ in 0..rng.gen_range(2..=4) {
+        list.push(pool[rng.gen_range(0..pool.len())].to_string());
+    }
+    list.sort();
+    list.dedup();
+    let set = list.clone();
+    list.shuffle(rng);
+    let mut ops = vec![Op::New { o: 1, set: 1, list }];
+    let set_op = |name: &str, arg: i64| Op::Set { o: 1, name: name.to_string(), arg };
+    match family {
+        0 => {
+            // in-place normalisation: settings, then build twice, clone, build both
+            ops.push(set_op("icase", 0));
+            if rng.gen_bool(0.4) {
+                ops.push(set_op(["rep", "verbose", "noanchors", "capture"][rng.gen_range(0..4)], 0));
+            }
+            ops.push(Op::Build { o: 1 });
+            ops.push(Op::Build { o: 1 });
+            ops.push(Op::Clone { o: 1, ret: 2 });
+            ops.push(Op::Build { o: 2 });
+            ops.push(Op::Build { o: 1 });
+        }
+        1 => {
+            // thresholds before / after enabling the conversion
+            let (r, m) = (rng.gen_range(1..=4), rng.gen_range(1..=3));
+            let mut calls = vec![set_op("minrep", r), set_op("minsub", m), set_op("rep", 0)];
+            calls.shuffle(rng);
+            ops.extend(calls);
+            ops.push(Op::Build { o: 1 });
+        }
+        2 => {
+            // settings change between builds of the same object
+            ops.push(set_op("rep", 0));
+            ops.push(Op::Build { o: 1 });
+            ops.push(set_op("minrep", rng.gen_range(2..=3)));
+            ops.push(Op::Build { o: 1 });
+            ops.push(set_op("minsub", rng.gen_range(2..=3)));
+            ops.push(Op::Build { o: 1 });
+            ops.push(set_op(["digit", "word", "icase", "escape"][rng.gen_range(0..4)], 0));
+            ops.push(Op::Build { o: 1 });
+        }
+        _ => {
+            // clones are independent in both directions
+            ops.push(set_op(["rep", "icase", "digit", "noend"][rng.gen_range(0..4)], 0));
+            if rng.gen_bool(0.5) {
+                ops.push(Op::Build { o: 1 });
+            }
+            ops.push(Op::Clone { o: 1, ret: 2 });
+            ops.push(Op::Set { o: 2, name: ["verbose", "capture", "nostart", "minrep"][rng.gen_range(0..4)].to_string(), arg: 2 });
+            ops.push(Op::Set { o: 1, name: ["escape", "word", "noanchors"][rng.gen_range(0..3)].to_string(), arg: 1 });
+            ops.push(Op::Build { o: 2 });
+            ops.push(Op::Build { o: 1 });
+            ops.push(Op::Build { o: 2 });
+        }
+    }
+    (vec![set], ops)
+}
+
 /// Executes a history on real `RegExpBuilder` objects and returns the `hist` event.
 pub fn run_rust_history(h: usize, sets: &[Vec<String>], ops: &[Op]) -> (Value, Value) {
+    run_rust_history_ref(h, sets, ops, None)
+}
+
+/// `proc_ref`: (path of this executable, scratch dir) - the reference results then come from fresh processes
+pub fn run_rust_history_ref(h: usize, sets: &[Vec<String>], ops: &[Op], proc_ref: Option<(&str, &str)>) -> (Value, Value) {
     let mut objs: HashMap<usize, RegExpBuilder> = HashMap::new();
     let mut belief: HashMap<usize, (usize, Cfg)> = HashMap::new();
     let mut intern = Interner::new();
@@ -236,7 +327,10 @@ pub fn run_rust_history(h: usize, sets: &[Vec<String>], ops: &[Op]) -> (Value, V
                 let (set, cfg) = belief.get(o).unwrap().clone();
                 match r {
                     Ok(out) => {
-                        let lib = lib_out(&sets[set - 1], &cfg);
+                        let lib = match proc_ref {
+                            Some((exe, tmp)) => lib_out_process(&sets[set - 1], &cfg, exe, tmp, h),
+                            None => lib_out(&sets[set - 1], &cfg),
+                        };
                         let libsid = match &lib {
                             Ok(s) => intern.id(s),
                             Err(_) => 0,
